@@ -17,7 +17,7 @@ from ..order import Interp
 from ..algebra_lin import linear_form
 
 COL = "typhon/collocations/collocator.py"
-EXPECT = {"C04.thresholds": 6, "C04.empty": 4, "C04.temporal": 6, "C04.window": 4, "C04.nan": 8, "C04.swap": 4, "C04.offsets": 7,
+EXPECT = {"C04.thresholds": 6, "C04.empty": 4, "C04.temporal": 6, "C04.window": 4, "C04.nan": 9, "C04.swap": 4, "C04.offsets": 7,
           "C04.cache": 4, "C04.interval": 1, "C04.grid": 1}
 
 
@@ -486,6 +486,20 @@ def rule_nan(ctx):
             bad.append(norm(a) if a is not None else None)
     ctx.ob("Collocator.collocate.to_original", not bad and len(crs) >= 3, "%d _create_return calls; pairs not mapped back: %s" % (len(crs), bad or "none"),
            "on all three return paths the pairs go through _to_original(..., original_indices)", node=crs[0] if crs else f.node, func=f)
+    # two index spaces: the searches work on the NaN-filtered arrays, _to_original translates their pairs to the datasets' points.  A filtered
+    # array (time1, lat2 ...) is never indexed with pairs that went through _to_original already
+    filtered = {nm_ for names_ in filt_names.values() for nm_ in names_}
+    mixed = []
+    for n_ in ast.walk(f.node):
+        if isinstance(n_, ast.Subscript) and isinstance(n_.value, ast.Name) and n_.value.id in filtered and isinstance(n_.ctx, ast.Load):
+            for x_ in ast.walk(n_.slice):
+                if isinstance(x_, ast.Name) and isinstance(x_.ctx, ast.Load):
+                    for d_ in flow.defs(x_.id, enclosing_stmt(n_)):
+                        if d_ != "param" and isinstance(d_, ast.Assign) and calls_in(d_.value, "_to_original"):
+                            mixed.append("%s with %s = %s" % (str(norm(n_))[:40], x_.id, str(norm(d_.value))[:50]))
+    ctx.ob("Collocator.collocate.index_space", not mixed, "filtered arrays indexed with translated pairs: %s" % (sorted(set(mixed)) or "none"),
+           "intervals and distances are taken from the filtered arrays with the pairs of the search; _to_original comes last",
+           node=crs[0] if crs else f.node, func=f, witness=None if not mixed else {"NaN position": "before a collocated point", "stored interval": "|dt| of other points / IndexError"})
     # spatial search receives the filtered coordinates in (lat1, lon1, lat2, lon2) order
     names = {(p_, fld): None for p_ in (P1, P2) for fld in ("lat", "lon")}
     for st in flow.stmts:
